@@ -8,6 +8,7 @@ use affinitree::linalg::polyhedron::PolytopeStatus;
 use affinitree::linalg::verif_hook::{self, Event, Fault};
 use affinitree::pwl::afftree::AffTree;
 use common::*;
+use ndarray::{Array1, Array2};
 use std::collections::HashMap;
 use std::panic::AssertUnwindSafe;
 
@@ -158,19 +159,87 @@ fn case_elim(r: &mut Rng, id: usize, total_only: bool, out: &mut String) {
     }
 }
 
+/// a partial right operand on R^m whose decisions test single coordinates against small thresholds and often have
+/// exactly ONE child (on label 0 or on label 1), nested up to depth 3: grafted below a terminal whose path already
+/// bounds that coordinate, the only child of such a decision is frequently infeasible (last-remaining-child rule)
+fn gen_single_child_tree(r: &mut Rng, m: usize, k: usize) -> AffTree<2> {
+    fn axis_dec(r: &mut Rng, m: usize) -> AffFunc {
+        let mut a = Array2::<f64>::zeros((1, m));
+        a[[0, r.below(m)]] = if r.chance(1, 2) { 1.0 } else { -1.0 };
+        AffFunc::from_mats(a, Array1::from(vec![r.range(-2, 2) as f64]))
+    }
+    let mut t = AffTree::<2>::from_aff(axis_dec(r, m));
+    let mut frontier = vec![(0usize, 1usize)];
+    while let Some((idx, d)) = frontier.pop() {
+        let both = r.chance(1, 4);
+        let only = r.below(2);
+        for label in 0..2 {
+            if !both && label != only {
+                continue;
+            }
+            if d >= 3 || r.chance(1, 2) {
+                t.add_child_node(idx, label, gen_aff(r, k, m, 4)).unwrap();
+            } else {
+                let c = t.add_child_node(idx, label, axis_dec(r, m)).unwrap();
+                frontier.push((c, d + 1));
+            }
+        }
+    }
+    t
+}
+/// a left operand whose decisions bound single coordinates and whose terminals are (signed) coordinate selections,
+/// so that the thresholds of gen_single_child_tree meet the path bounds
+fn gen_axis_tree(r: &mut Rng, n: usize) -> AffTree<2> {
+    let mut root = Array2::<f64>::zeros((1, n));
+    root[[0, r.below(n)]] = if r.chance(1, 2) { 1.0 } else { -1.0 };
+    let mut t = AffTree::<2>::from_aff(AffFunc::from_mats(root, Array1::from(vec![r.range(-2, 2) as f64])));
+    let mut frontier = vec![(0usize, 1usize)];
+    while let Some((idx, d)) = frontier.pop() {
+        for label in 0..2 {
+            if r.chance(1, 8) {
+                continue;
+            }
+            if d >= 2 || r.chance(1, 2) {
+                t.add_child_node(idx, label, AffFunc::identity(n)).unwrap();
+            } else {
+                let mut a = Array2::<f64>::zeros((1, n));
+                a[[0, r.below(n)]] = if r.chance(1, 2) { 1.0 } else { -1.0 };
+                let c = t.add_child_node(idx, label, AffFunc::from_mats(a, Array1::from(vec![r.range(-2, 2) as f64]))).unwrap();
+                frontier.push((c, d + 1));
+            }
+        }
+        if t.tree.children(idx).count() == 0 {
+            t.add_child_node(idx, 1, AffFunc::identity(n)).unwrap();
+        }
+    }
+    t
+}
+
 fn case_cprune(r: &mut Rng, id: usize, out: &mut String) {
     // pruned vs unpruned composition; left operand possibly with cached states from an earlier elimination
-    let mut f = if r.chance(1, 2) { gen_pipeline(r) } else { gen_elim_tree(r, false) };
+    let targeted = r.chance(1, 3);
+    let mut f = if targeted {
+        let n = 1 + r.below(2);
+        gen_axis_tree(r, n)
+    } else if r.chance(1, 2) {
+        gen_pipeline(r)
+    } else {
+        gen_elim_tree(r, false)
+    };
     if r.chance(1, 3) {
         f.infeasible_elimination();
     }
     let m = f.terminals().map(|x| x.aff.outdim()).next().unwrap();
     let k = 1 + r.below(2);
     let cfg = TreeCfg { depth: r.below(3), partial_pct: if r.chance(1, 2) { 0 } else { 25 }, early_leaf_pct: 20, maxk: 4, term_pool: 0 };
-    let g: AffTree<2> = match r.below(4) {
-        0 => schema::partial_ReLU(m, r.below(m)),
-        1 if m >= 2 => schema::argmax(m),
-        _ => gen_tree(r, m, k, cfg),
+    let g: AffTree<2> = if targeted {
+        gen_single_child_tree(r, m, k)
+    } else {
+        match r.below(4) {
+            0 => schema::partial_ReLU(m, r.below(m)),
+            1 if m >= 2 => schema::argmax(m),
+            _ => gen_tree(r, m, k, cfg),
+        }
     };
     let mut h0 = f.clone();
     let unpruned = catch(AssertUnwindSafe(|| h0.compose::<false, false>(&g)));
